@@ -100,6 +100,16 @@ func (vc *VC) evalCall(st *State, call *ast.CallExpr) Val {
 	if v, handled := vc.specialCall(st, fn, recvExpr, call); handled {
 		return v
 	}
+	// an ext_ contract overrides the body of a function from another package of the repository
+	if fn.Pkg() != nil && fn.Pkg() != vc.pkg {
+		if _, ok := vc.prog.ext[extKey(fn)]; ok {
+			var recv Val
+			if recvExpr != nil {
+				recv = vc.evalReceiver(st, recvExpr, fn, selInfo)
+			}
+			return vc.externalCall(st, fn, recv, vc.evalArgs(st, call), call)
+		}
+	}
 	if recvExpr != nil {
 		recv = vc.evalReceiver(st, recvExpr, fn, selInfo)
 	}
@@ -476,18 +486,26 @@ func (vc *VC) evalDSL(st *State, fi *FuncInfo, fn *types.Func, call *ast.CallExp
 		return sc(vc.lockHeld(st, call.Args[0], name == "heldR"), SBool)
 	case name == "fresh":
 		// fresh(x): x was not allocated at function entry
-		r := vc.evalScalar(st, call.Args[0])
+		var rt string
+		switch x := vc.eval(st, call.Args[0]).(type) {
+		case *Scalar:
+			rt = x.T
+		case *SliceV:
+			rt = x.Arr
+		default:
+			panic(unsupported("fresh() of %T", x))
+		}
 		if vc.oldState == nil {
 			panic(unsupported("fresh() outside a two-state context"))
 		}
 		al := vc.heapGet(vc.oldState, "alloc", ArrSort(SRef, SBool))
-		return sc(and(not(eq(r.T, "nil")), not(sel(al, r.T))), SBool)
+		return sc(and(not(eq(rt, "nil")), not(sel(al, rt))), SBool)
 	case strings.HasPrefix(name, "gh_"):
 		return vc.ghostRead(st, fn, call)
 	case strings.HasPrefix(name, "op_"):
 		args := vc.evalArgs(st, call)
 		return vc.evalOpaque(st, fi, args, call)
-	case strings.HasPrefix(name, "sp_") || strings.HasPrefix(name, "uf_"):
+	case strings.HasPrefix(name, "sp_") || strings.HasPrefix(name, "uf_") || strings.HasPrefix(name, "atominv_"):
 		args := vc.evalArgs(st, call)
 		return vc.evalPure(st, fi, args, call)
 	case name == "rint":
@@ -1050,11 +1068,7 @@ func (vc *VC) callFuncValue(st *State, call *ast.CallExpr) Val {
 // externalCall: a function outside the program. Uses an ext_ contract when present; otherwise the
 // call is treated as returning arbitrary values without touching modelled state (recorded).
 func (vc *VC) externalCall(st *State, fn *types.Func, recv Val, args []Val, call *ast.CallExpr) Val {
-	key := fn.Pkg().Name() + "."
-	if r := recvTypeName(fn); r != "" {
-		key += r + "."
-	}
-	key += fn.Name()
+	key := extKey(fn)
 	if si, ok := vc.prog.ext[key]; ok {
 		if recv != nil {
 			// ext specs take the receiver as first parameter
@@ -1137,4 +1151,12 @@ func (vc *VC) evalOpaque(st *State, fi *FuncInfo, args []Val, call *ast.CallExpr
 		vc.decls = append(vc.decls, fmt.Sprintf("(assert (forall (%s) (! (= %s %s) :pattern (%s))))", strings.Join(binders, " "), app, body, app))
 	}
 	return sc(sx(f, ts...), rs)
+}
+
+func extKey(fn *types.Func) string {
+	key := fn.Pkg().Name() + "."
+	if r := recvTypeName(fn); r != "" {
+		key += r + "."
+	}
+	return key + fn.Name()
 }
